@@ -31,7 +31,10 @@ def scenario(rng, i):
             steps.append(e)
             cur = world.tree_apply(cur, e)
     steps.append({"op": "info"})
-    return {"tree": tree, "steps": steps}
+    scn = {"tree": tree, "steps": steps}
+    if i % 4 == 2:
+        scn["tz"] = rng.choice(["JST-9", "EST5EDT", "IST-5:30", "NST3:30"])       # the stamp in the file name is UTC wherever the tool runs
+    return scn
 
 
 RULE = ("sequences of 2-12 create / create -sf runs (real clock: several runs per second; runs end with 0, 10 or 11) interleaved with edits, flat and nested; before / "
